@@ -208,6 +208,59 @@ func init() {
 		w.ex.Thread("S1", func() { w.n.Send(pid, "docall") })
 		w.ex.Thread("K1", func() { w.n.Kill(pid) })
 	})
+	// meta process: termination causes racing (Start returns, handler error, owner killed)
+	metaSc := func(name string, causes []string, build func(w *World, id gen.Alias, mp *metaProbe)) {
+		harn.Register(harn.Scenario{Property: "C05", Name: name, Run: func(c *harn.Ctx) *harn.Result {
+			return harn.Explore(c, harn.Sched{QuickBound: 2, ThoroughBound: 3, Preempt: true, Cache: true, Body: nodeBody(func(w *World) {
+				id, mp := w.spawnMeta("R", gen.MetaOptions{})
+				mp.onMsg = func(m *metaProbe, from gen.PID, msg any) error {
+					if msg == "fail" {
+						return errE
+					}
+					return nil
+				}
+				build(w, id, mp)
+				w.Check = func() {
+					r := w.recs["R"]
+					w.finalOracle("R")
+					_, err := w.n.MetaInfo(id)
+					alive := err == nil
+					if !alive && len(r.term) == 0 {
+						w.ex.Fail("no-terminate-callback", "meta process is gone but Terminate never ran; log=%v", r.log)
+					}
+					if alive && len(r.term) > 0 {
+						w.ex.Fail("terminate-but-alive", "meta Terminate ran (%v) but the meta process is still there", r.term)
+					}
+					for _, t := range r.term {
+						ok := false
+						for _, c := range causes {
+							ok = ok || t == c
+						}
+						if !ok {
+							w.ex.Fail("wrong-reason", "meta Terminate got %q, injected causes %v", t, causes)
+						}
+					}
+					w.Out("alive=%v term=%v log=%s", alive, r.term, strings.Join(r.log, ","))
+				}
+			})})
+		}})
+	}
+	metaSc("meta-startreturns-vs-fail", []string{"normal", "E"}, func(w *World, id gen.Alias, mp *metaProbe) {
+		w.ex.Thread("G", func() { mp.start.Open() })
+		w.ex.Thread("S1", func() { w.n.Send(id, "fail") })
+	})
+	metaSc("meta-startreturns-vs-send", []string{"normal"}, func(w *World, id gen.Alias, mp *metaProbe) {
+		w.ex.Thread("G", func() { mp.start.Open() })
+		w.ex.Thread("S1", func() { w.n.Send(id, "a"); w.n.Send(id, "b") })
+	})
+	metaSc("meta-ownerkill-vs-fail", []string{"kill", "E"}, func(w *World, id gen.Alias, mp *metaProbe) {
+		w.ex.Thread("K", func() { w.n.Kill(w.pids["PR"]) })
+		w.ex.Thread("S1", func() { w.n.Send(id, "fail") })
+	})
+	metaSc("meta-fail-vs-fail", []string{"E"}, func(w *World, id gen.Alias, mp *metaProbe) {
+		w.ex.Thread("S1", func() { w.n.Send(id, "fail") })
+		w.ex.Thread("S2", func() { w.n.Send(id, "fail") })
+	})
 	// termination during init: init returns an error => no Terminate callback, spawn fails
 	harn.Register(harn.Scenario{Property: "C05", Name: "init-error", Run: func(c *harn.Ctx) *harn.Result {
 		return harn.Explore(c, harn.Sched{QuickBound: 1, ThoroughBound: 2, Preempt: true, Cache: true,
